@@ -67,7 +67,7 @@ bridgekeya = "bridge-a"
 "https://a.example" = true
 `
 	c16TomlB = `SessionExpiration = "45m"
-PostMessageCooloff = "1ms"
+PostMessageCooloff = "1.25ms"
 CaptchaURL = "https://captcha.example/c"
 CaptchaHMACSecret = "00112233445566778899aabbccddeeff00112233445566778899aabbccddeeff"
 CaptchaRequiredForLogin = true
@@ -121,7 +121,7 @@ func c16ModelB() config.Network {
 			Services:  []config.Service{{Password: "svcpwb"}},
 		},
 		SessionExpiration:       config.Duration(45 * time.Minute),
-		PostMessageCooloff:      config.Duration(time.Millisecond),
+		PostMessageCooloff:      config.Duration(1250 * time.Microsecond), // not a whole number of milliseconds
 		TrustedBridges:          map[string]string{"bridgekeyb": "bridge-b"},
 		CaptchaURL:              "https://captcha.example/c",
 		CaptchaHMACSecret:       config.HexString(secret),
